@@ -76,6 +76,8 @@ func progWorker(w *vf.Worker) {
 		genRecurFamily(a, emit)
 	case "hof":
 		genHofFamily(a, emit)
+	case "loopvar":
+		genLoopVarFamily(a, emit)
 	case "blocks":
 		genBlocksFamily(a, emit)
 	case "filter":
@@ -123,6 +125,7 @@ func familySpecs(quick bool) []famSpec {
 			{progArgs{Family: "func", Level: 1, Size: 2}, "prog", 64},
 			{progArgs{Family: "recur", Level: 1}, "prog", 32},
 			{progArgs{Family: "hof", Level: 1}, "prog", 32},
+			{progArgs{Family: "loopvar", Level: 0}, "prog", 32},
 			{progArgs{Family: "blocks", Level: 0, Size: 3}, "prog", 64},
 			{progArgs{Family: "filter", Level: 0, Size: 3}, "prog", 32},
 			{progArgs{Family: "chain", Level: 0}, "prog", 32},
@@ -141,6 +144,7 @@ func familySpecs(quick bool) []famSpec {
 		{progArgs{Family: "func", Level: 1, Size: 3}, "prog", 128},
 		{progArgs{Family: "recur", Level: 1}, "prog", 32},
 		{progArgs{Family: "hof", Level: 1}, "prog", 32},
+		{progArgs{Family: "loopvar", Level: 1}, "prog", 32},
 		{progArgs{Family: "blocks", Level: 1, Size: 3}, "prog", 64},
 		{progArgs{Family: "filter", Level: 1, Size: 3}, "prog", 64},
 		{progArgs{Family: "chain", Level: 1}, "prog", 32},
@@ -156,7 +160,7 @@ func run(c *vf.Ctx) {
 	c.Assume("unset of a local clears its value to absent and keeps the binding (scope and declared type); whether an outer same-named local shows through afterwards is not asserted")
 	c.Assume("not asserted because the reference text does not determine them (counted per reason under counters 'unconstrained:*'): array index 0 and negative indices beyond the length, indexing or slicing scalars, string indices on arrays, auto-create of an array element through an integer index, negative positional field indices, declarations of a loop-bound name at the top of that loop's body, comparisons/arithmetic on mixed or absent operands, emit of a map literal or $*, emit by >= 2 names that stop short of the leaves, lashed emits of unequal shapes, emit @* of unequal depths, bare return in a function, NR in begin blocks")
 	c.Assume("precedence family: the dot operators .+ .- .* ./ are not in the documented precedence table and are not generated; a unary operator as the right operand of ** is always parenthesised")
-	c.Assume("programs the reference interpreter finds non-terminating within 4000 steps are not run; if the real interpreter failed to terminate on a program the reference terminates on, the pool would report a hang")
+	c.Assume("programs the reference interpreter finds non-terminating within 20000 steps are not run; if the real interpreter failed to terminate on a program the reference terminates on, the pool would report a hang")
 	c.Assume("array growth through a non-final index (x[n+1][j] = v) is enumerated in a separate one-program-per-shard family with a reduced alphabet, because each such program currently kills the worker process")
 	only := os.Getenv("VERIF_C14_FAMILY")
 	hf := fmt.Sprintf("/dev/shm/verif-c14-hangs-%d", os.Getpid())
